@@ -64,6 +64,7 @@ var guardTable = []guardRow{
 	{"fixtures/fx.GoodB", "fixtures/fx.GoodB.mu", []string{"keep"}, false, false},
 	{"fixtures/fx.GoodE1", "fixtures/fx.GoodE1.mu", []string{"log", "recent", "next"}, false, false},
 	{"fixtures/fx.batcher", "fixtures/fx.batcher.mu", []string{"batch"}, false, false},
+	{"fixtures/fx.fxEstimator", "fixtures/fx.fxEstimator.mu", []string{"rate"}, false, false},
 	{"fixtures/fx.BadBShallow", "fixtures/fx.BadBShallow.mu", []string{"keep"}, false, false},
 	{"fixtures/fx.rmw", "fixtures/fx.rmw.mu", []string{"total"}, false, false},
 	{"fixtures/fx.rmw", "fixtures/fx.rmw.mu", []string{"stats"}, true, false},
